@@ -886,6 +886,205 @@ def r6_5(ctx):
     raise AnalysisError("output.py: no typing./builtins. names found")
 
 
+# -- R6.6 ------------------------------------------------------------------------
+
+def _int_eval(node, env, fn):
+  """Evaluates an int expression over the loop variable, len(<parts>) and
+  once-bound int locals; None if it is something else."""
+  if isinstance(node, ast.Constant) and isinstance(node.value, int) and not isinstance(node.value, bool):
+    return node.value
+  if isinstance(node, ast.Name):
+    if node.id in env:
+      return env[node.id]
+    binds = [n for n in walk_no_nested(fn) if isinstance(n, ast.Name) and n.id == node.id
+             and not isinstance(n.ctx, ast.Load)]
+    vals = [n.value for n in walk_no_nested(fn) if isinstance(n, ast.Assign) and len(n.targets) == 1
+            and dotted(n.targets[0]) == node.id]
+    if len(binds) == 1 and len(vals) == 1:
+      return _int_eval(vals[0], env, fn)
+    return None
+  if isinstance(node, ast.UnaryOp) and isinstance(node.op, (ast.USub, ast.UAdd)):
+    v = _int_eval(node.operand, env, fn)
+    return None if v is None else (-v if isinstance(node.op, ast.USub) else v)
+  if isinstance(node, ast.BinOp) and isinstance(node.op, (ast.Add, ast.Sub, ast.Mult)):
+    l, r = _int_eval(node.left, env, fn), _int_eval(node.right, env, fn)
+    if l is None or r is None:
+      return None
+    return l + r if isinstance(node.op, ast.Add) else l - r if isinstance(node.op, ast.Sub) else l * r
+  if isinstance(node, ast.Call) and dotted(node.func) == "len" and len(node.args) == 1 \
+      and dotted(node.args[0]) == env.get("<parts>"):
+    return env["<n>"]
+  return None
+
+
+def _iter_values(it, env, fn):
+  """The ints a `range(..)` / `reversed(range(..))` iterable yields, or None."""
+  rev = False
+  while isinstance(it, ast.Call) and dotted(it.func) == "reversed" and len(it.args) == 1:
+    it, rev = it.args[0], not rev
+  if not (isinstance(it, ast.Call) and dotted(it.func) == "range" and 1 <= len(it.args) <= 3
+          and not it.keywords):
+    return None
+  args = [_int_eval(a, env, fn) for a in it.args]
+  if any(a is None for a in args) or (len(args) == 3 and args[2] == 0):
+    return None
+  vals = list(range(*args))
+  return vals[::-1] if rev else vals
+
+
+_PEEL_RIGHT = {"rpartition": None, "rsplit": 1}   # method -> required maxsplit
+_PEEL_LEFT = {"partition": None, "split": 1}
+
+
+def _peel_loops(mod):
+  """While loops that shorten a dotted name held in a local: (loop, assign, var, method, index)."""
+  out = []
+  for loop in ast.walk(mod.tree):
+    if not isinstance(loop, ast.While):
+      continue
+    for n in walk_no_nested(loop):
+      if not (isinstance(n, ast.Assign) and len(n.targets) == 1 and isinstance(n.value, ast.Call)
+              and isinstance(n.value.func, ast.Attribute) and isinstance(n.value.func.value, ast.Name)
+              and n.value.func.attr in {**_PEEL_RIGHT, **_PEEL_LEFT} and n.value.args
+              and _const_str(n.value.args[0]) == "."):
+        continue
+      var = n.value.func.value.id
+      t = n.targets[0]
+      elts = [dotted(e) for e in t.elts] if isinstance(t, ast.Tuple) else None
+      if elts is None or var not in elts:
+        continue
+      out.append((loop, n, var, n.value.func.attr, elts.index(var), len(elts)))
+  return out
+
+
+@rule("R6.6", "C06", floor=10)
+def r6_6(ctx):
+  """Module-prefix searches over a dotted name try the longest prefix first.
+
+  `pkg.mod.Foo` may be class Foo of module pkg.mod or attribute mod.Foo of
+  package pkg; every loader/lookup loop has to try `pkg.mod` before `pkg`
+  (and must try every proper prefix), otherwise a name from a sub-module of a
+  package with an importable __init__ resolves against the package, fails and
+  silently becomes Any.  Two loop forms are understood: an index loop slicing
+  the split name (evaluated on names of 1..7 components) and a while loop that
+  peels the last component off with rpartition/rsplit.
+  """
+  lmod = get_module(ctx, LOAD)
+  fn = lmod.func("_LateTypeLoader._load_late_type_module")
+  # (a) index loop over the split name
+  splits = [n for n in walk_no_nested(fn) if isinstance(n, ast.Assign) and len(n.targets) == 1
+            and isinstance(n.targets[0], ast.Name) and isinstance(n.value, ast.Call)
+            and isinstance(n.value.func, ast.Attribute) and n.value.func.attr == "split"
+            and [_const_str(a) for a in n.value.args] == ["."]]
+  loops = [n for n in walk_no_nested(fn) if isinstance(n, ast.For)]
+  peels_here = [p for p in _peel_loops(lmod) if lmod.enclosing_function(p[0]) is fn]
+  if len(splits) == 1 and len(loops) == 1 and isinstance(loops[0].target, ast.Name):
+    parts, loop, iv = splits[0].targets[0].id, loops[0], loops[0].target.id
+    if sum(1 for n in walk_no_nested(fn) if isinstance(n, ast.Name) and n.id in (parts, iv)
+           and not isinstance(n.ctx, ast.Load)) != 2:
+      raise AnalysisError("_load_late_type_module: the split name or the loop index is rebound")
+    pre, suf = [], []
+    for n in walk_no_nested(loop):
+      if isinstance(n, ast.Subscript) and dotted(n.value) == parts and isinstance(n.slice, ast.Slice):
+        sl = n.slice
+        if sl.step is not None:
+          raise AnalysisError(f"_load_late_type_module: stepped slice {src(n)}")
+        if sl.upper is not None and (sl.lower is None or src(sl.lower) == "0"):
+          pre.append(n)
+        elif sl.lower is not None and sl.upper is None:
+          suf.append(n)
+        else:
+          raise AnalysisError(f"_load_late_type_module: slice {src(n)} not understood")
+    imports = [c for c in calls_in(loop) if isinstance(c.func, ast.Attribute) and c.func.attr == "import_name"]
+    if not pre or not suf or len(imports) != 1:
+      raise AnalysisError("_load_late_type_module: prefix slice / remainder slice / import_name call not found")
+    tried, rest, odd = {}, {}, []
+    for n in range(1, 8):
+      env = {"<parts>": parts, "<n>": n}
+      ivs = _iter_values(loop.iter, env, fn)
+      if ivs is None:
+        raise AnalysisError(f"_load_late_type_module: loop over {src(loop.iter)} not understood")
+      tried[n], rest[n] = [], []
+      for i in ivs:
+        env[iv] = i
+        ups = {_int_eval(p.slice.upper, env, fn) for p in pre}
+        los = {_int_eval(q.slice.lower, env, fn) for q in suf}
+        if None in ups or None in los or len(ups) != 1 or len(los) != 1:
+          raise AnalysisError("_load_late_type_module: slice bounds not understood / inconsistent")
+        tried[n].append(slice(None, ups.pop()).indices(n)[1])
+        rest[n].append(slice(los.pop(), None).indices(n)[0])
+    want = {n: list(range(n - 1, 0, -1)) for n in tried}
+    facts = {"loop": src(loop.iter), "prefix": src(pre[0]), "remainder": src(suf[0]),
+             "prefix_lengths_for_4_parts": tried[4]}
+    out_of_order = [n for n in tried if any(a < b for a, b in zip(tried[n], tried[n][1:]))]
+    missing = [n for n in tried if set(want[n]) - set(tried[n])]
+    if not out_of_order and not missing and tried != want:
+      raise AnalysisError(f"_load_late_type_module: prefixes tried {tried[4]} for a 4-part name: not understood")
+    ctx.check(not out_of_order, "_load_late_type_module:longest-prefix-first", LOAD, loop.lineno,
+              f"for a 4-part name the module prefixes of length {tried[4]} are tried in this order: a shorter "
+              "prefix (the package) is tried before a longer one (the sub-module), so `pkg.mod.Foo` is looked "
+              "up as `mod.Foo` in `pkg` and becomes Any", facts)
+    ctx.check(not missing, "_load_late_type_module:every-proper-prefix", LOAD, loop.lineno,
+              f"for a 4-part name only the prefixes of length {tried[4]} are tried; every length "
+              f"{want[4]} is needed (nested classes, sub-packages)", facts)
+    ctx.check(tried == rest, "_load_late_type_module:remainder-complements-prefix", LOAD, suf[0].lineno,
+              f"for a 4-part name the prefixes end at {tried[4]} but the attribute paths start at {rest[4]}: "
+              "a component is dropped or looked up twice", {**facts, "remainder_starts_for_4_parts": rest[4]})
+    # the first importable prefix wins, and the prefix slice is what is imported
+    rets = [n for n in walk_no_nested(loop) if isinstance(n, ast.Return)]
+    imp = imports[0]
+    holder = lmod.parent.get(imp)
+    var = holder.target.id if isinstance(holder, ast.NamedExpr) else (
+        dotted(holder.targets[0]) if isinstance(holder, ast.Assign) else None)
+    def mentions_prefix(e, depth=0):
+      if any(x in pre for x in ast.walk(e)):
+        return True
+      for x in ast.walk(e):
+        if isinstance(x, ast.Name) and depth < 3:
+          for d in walk_no_nested(loop):
+            if isinstance(d, ast.Assign) and dotted(d.targets[0]) == x.id and mentions_prefix(d.value, depth + 1):
+              return True
+      return False
+    if var is None or not mentions_prefix(imp):
+      raise AnalysisError("_load_late_type_module: import_name(<prefix>) result binding not understood")
+    hit = [r for r in rets if any(p and t in (var, f"({var} := {src(imp)})", f"{var} is not None")
+                                  for t, p in flow.guards_txt(lmod.parent, r, stop=loop))
+           and isinstance(r.value, ast.Tuple) and len(r.value.elts) == 2 and dotted(r.value.elts[0]) == var
+           and any(x in suf for x in ast.walk(r.value.elts[1]))]
+    if rets and len(hit) != len(rets):
+      raise AnalysisError("_load_late_type_module: a return inside the loop is not `return <module>, <remainder>` "
+                          "under `if <module>`")
+    ctx.check(bool(hit), "_load_late_type_module:first-hit-returns", LOAD, loop.lineno,
+              "the loop does not return at the first importable prefix: a later (shorter) prefix can "
+              "replace the module that was found", {"returns_in_loop": len(rets)})
+  elif not peels_here:
+    raise AnalysisError("_load_late_type_module: neither an index loop over the split name nor a "
+                        "peel-from-the-right loop was found")
+  # (b) while loops that peel a dotted name
+  n_peel = 0
+  for rel in (LOAD, VISITORS, SERIALIZE):
+    mod = get_module(ctx, rel)
+    seen = {}
+    for loop, st, var, meth, idx, width in _peel_loops(mod):
+      if idx != 0 and meth in _PEEL_LEFT and idx == width - 1:
+        continue   # walks the suffixes of the name: not a prefix search
+      q = getattr(mod.enclosing_function(loop), "name", "<module>")
+      k = seen[q] = seen.get(q, 0) + 1
+      ms = st.value.args[1] if len(st.value.args) > 1 else kwarg(st.value, "maxsplit")
+      if meth in ("rsplit", "split") and try_fold(ms) != 1:
+        raise AnalysisError(f"{rel}:{q}: {src(st)} unpacks a split without maxsplit=1")
+      if idx != 0 and meth in _PEEL_RIGHT:
+        raise AnalysisError(f"{rel}:{q}: {src(st)} keeps the last component in the loop variable")
+      n_peel += 1
+      ctx.check(meth in _PEEL_RIGHT and idx == 0, f"peel-loop:{rel.rsplit('/', 1)[-1]}:{q}" + (f"#{k}" if k > 1 else ""),
+                rel, st.lineno,
+                f"`{src(st)}` keeps the first component of `{var}`: the loop tries the shortest prefix "
+                "(the top-level package) instead of walking from the longest prefix down",
+                {"loop_variable": var, "method": meth, "kept_element": idx})
+  if n_peel == 0:
+    raise AnalysisError("no peel-from-the-right prefix loops found in load_pytd/visitors/serialize_ast")
+
+
 # -- sensitivity suite ---------------------------------------------------------------
 
 VARIANTS = [
